@@ -67,6 +67,37 @@ static void ev_path(const char *what, const char *p) {
   flush_tx(); printf("fs %s ", what); put_hex((const unsigned char *)p, strlen(p)); putchar('\n'); fflush(stdout);
 }
 
+
+/* ---- write guard: nothing the library does may create, change or remove anything outside the scratch root,
+   whatever path a client (or a defect) makes it use.  The call is still printed (the oracle judges the path),
+   but it is not executed: it fails with EACCES.  Relative paths are resolved against the current directory. ---- */
+static char root_real[4200] = "";
+static int inside_scratch(const char *path) {
+  char tmp[8300], res[PATH_MAX + 1]; size_t n, rl;
+  if (!path || !*path) return 1;                                   /* names no file: the real call fails by itself */
+  if (!root_real[0]) { if (!root[0] || !realpath(root, root_real)) { root_real[0] = 0; return 0; } }
+  n = strlen(path); if (n >= sizeof tmp - 2) return 0;
+  memcpy(tmp, path, n + 1);
+  /* resolve the longest existing ancestor of the parent directory (the last component may not exist yet,
+     and must not be followed if it is a symbolic link: the operations guarded here act on the link itself or
+     create the name) */
+  for (;;) {
+    char *sl = strrchr(tmp, '/');
+    if (!sl) { strcpy(tmp, "."); }
+    else if (sl == tmp) { tmp[1] = 0; }
+    else *sl = 0;
+    if (realpath(tmp, res)) break;
+    if (!strcmp(tmp, ".") || !strcmp(tmp, "/")) return 0;
+  }
+  rl = strlen(root_real);
+  return strncmp(res, root_real, rl) == 0 && (res[rl] == '/' || res[rl] == 0);
+}
+static int guard_blocks(const char *what, const char *path) {
+  if (inside_scratch(path)) return 0;
+  fprintf(stderr, "vdrv_ft: write guard: %s outside the scratch root not executed\n", what);
+  errno = EACCES; return 1;
+}
+
 /* ---- wraps ---- */
 ssize_t __wrap_write(int fd, const void *buf, size_t count) {
   ssize_t r;
@@ -98,6 +129,7 @@ int __wrap_open(const char *path, int flags, ...) {
   int fd; mode_t m = 0;
   if (flags & O_CREAT) { va_list ap; va_start(ap, flags); m = va_arg(ap, mode_t); va_end(ap); }
   if (in_req) ev_path((flags & (O_WRONLY | O_RDWR)) ? "openw" : "openr", path);
+  if ((flags & (O_WRONLY | O_RDWR | O_CREAT | O_TRUNC)) && guard_blocks("open for writing", path)) fd = -1; else
   fd = __real_open(path, flags, m);
   if (in_req) { printf("= %s\n", fd >= 0 ? "ok" : "fail"); fflush(stdout); xfer_fd = fd; }
   return fd;
@@ -105,6 +137,7 @@ int __wrap_open(const char *path, int flags, ...) {
 FILE *__wrap_fopen(const char *path, const char *mode) {
   FILE *f;
   if (in_req) ev_path("fopen", path);
+  if (mode && strpbrk(mode, "wa+") && guard_blocks("fopen for writing", path)) f = NULL; else
   f = __real_fopen(path, mode);
   if (in_req) { printf("= %s\n", f ? "ok" : "fail"); fflush(stdout); }
   return f;
@@ -136,14 +169,14 @@ int __wrap_close(int fd) {
   return __real_close(fd);
 }
 static int rc_call(const char *what, const char *p, int rc) { (void)what; (void)p; printf("= rc %d\n", rc < 0 ? -1 : rc); fflush(stdout); return rc; }
-int __wrap_mkdir(const char *p, mode_t m) { if (!in_req) return __real_mkdir(p, m); ev_path("mkdir", p); return rc_call("mkdir", p, __real_mkdir(p, m)); }
-int __wrap_rmdir(const char *p) { if (!in_req) return __real_rmdir(p); ev_path("rmdir", p); return rc_call("rmdir", p, __real_rmdir(p)); }
-int __wrap_unlink(const char *p) { if (!in_req) return __real_unlink(p); ev_path("unlink", p); return rc_call("unlink", p, __real_unlink(p)); }
+int __wrap_mkdir(const char *p, mode_t m) { if (!in_req) return guard_blocks("mkdir", p) ? -1 : __real_mkdir(p, m); ev_path("mkdir", p); return rc_call("mkdir", p, guard_blocks("mkdir", p) ? -1 : __real_mkdir(p, m)); }
+int __wrap_rmdir(const char *p) { if (!in_req) return guard_blocks("rmdir", p) ? -1 : __real_rmdir(p); ev_path("rmdir", p); return rc_call("rmdir", p, guard_blocks("rmdir", p) ? -1 : __real_rmdir(p)); }
+int __wrap_unlink(const char *p) { if (!in_req) return guard_blocks("unlink", p) ? -1 : __real_unlink(p); ev_path("unlink", p); return rc_call("unlink", p, guard_blocks("unlink", p) ? -1 : __real_unlink(p)); }
 int __wrap_rename(const char *a, const char *b) {
-  if (!in_req) return __real_rename(a, b);
+  if (!in_req) return (guard_blocks("rename", a) || guard_blocks("rename", b)) ? -1 : __real_rename(a, b);
   flush_tx(); fputs("fs rename ", stdout); put_hex((const unsigned char *)a, strlen(a)); putchar(' ');
   put_hex((const unsigned char *)b, strlen(b)); putchar('\n');
-  return rc_call("rename", a, __real_rename(a, b));
+  return rc_call("rename", a, (guard_blocks("rename", a) || guard_blocks("rename", b)) ? -1 : __real_rename(a, b));
 }
 int __wrap_stat(const char *p, struct stat *st) {
   int rc;
@@ -193,6 +226,7 @@ int __real_creat(const char *p, mode_t m);
 int __wrap_creat(const char *p, mode_t m) {
   int fd;
   if (in_req) ev_path("creat", p);
+  if (guard_blocks("creat", p)) fd = -1; else
   fd = __real_creat(p, m);
   if (in_req) { printf("= %s\n", fd >= 0 ? "ok" : "fail"); fflush(stdout); }
   return fd;
@@ -201,9 +235,9 @@ struct utimbuf;
 int __real_utime(const char *p, const struct utimbuf *t);
 int __wrap_utime(const char *p, const struct utimbuf *t) {
   int rc;
-  if (!in_req) return __real_utime(p, t);
+  if (!in_req) return guard_blocks("utime", p) ? -1 : __real_utime(p, t);
   ev_path("utime", p);
-  rc = __real_utime(p, t);
+  rc = guard_blocks("utime", p) ? -1 : __real_utime(p, t);
   printf("= rc %d\n", rc < 0 ? -1 : rc); fflush(stdout);
   return rc;
 }
